@@ -14,11 +14,11 @@ import (
 	"testing"
 	"time"
 
+	"github.com/anishathalye/porcupine"
 	"github.com/markusressel/fan2go/internal/configuration"
 	"github.com/markusressel/fan2go/internal/fans"
 	"github.com/markusressel/fan2go/internal/persistence"
 	"github.com/markusressel/fan2go/zverif/check"
-	"github.com/anishathalye/porcupine"
 	"github.com/markusressel/fan2go/zverif/kernel"
 	"github.com/markusressel/fan2go/zverif/stage"
 	"github.com/markusressel/fan2go/zverif/world"
